@@ -48,6 +48,12 @@ pub enum Op {
     Gc,
     AddVars(u32),
     AddNamedVars(u32),
+    /// add_named_vars with `k` fresh names followed by a duplicate: the call is rejected, but the
+    /// `k` variables before the duplicate have been added (documented: `added_vars`)
+    AddNamedVarsRejected(u32),
+    /// `LevelView::gc()` on every level outside a prepared collection ("may be a no-op"): must
+    /// not change anything an observer can see
+    LevelGc,
     SetOrder(Vec<u32>, bool),
 }
 
@@ -89,6 +95,8 @@ impl Op {
             Op::Gc => "gc",
             Op::AddVars(_) => "add_vars",
             Op::AddNamedVars(_) => "add_named_vars",
+            Op::AddNamedVarsRejected(_) => "add_named_vars_rejected",
+            Op::LevelGc => "level_gc",
             Op::SetOrder(_, false) => "set_var_order",
             Op::SetOrder(_, true) => "set_var_order_seq",
         }
@@ -169,7 +177,11 @@ pub fn gen_op(rng: &mut Rng, n: u32, live: usize, has_quant: bool, p: &Profile) 
             86..=87 if p.zset && !has_quant => Op::ZSet(rng.below(6) as u32, h(rng), h(rng), rng.below(n as u64) as u32),
             88..=92 => Op::Clone(h(rng)),
             93..=94 if p.add_vars && n < p.max_vars => {
-                if rng.bool() { Op::AddVars(rng.range(1, 2) as u32) } else { Op::AddNamedVars(rng.range(1, 2) as u32) }
+                match rng.below(5) {
+                    0 | 1 => Op::AddVars(rng.range(1, 2) as u32),
+                    2 | 3 => Op::AddNamedVars(rng.range(1, 2) as u32),
+                    _ => Op::AddNamedVarsRejected(rng.range(1, 2) as u32),
+                }
             }
             95..=99 if p.reorder && n >= 2 => {
                 let mut o = rng.perm(n as usize);
@@ -179,7 +191,13 @@ pub fn gen_op(rng: &mut Rng, n: u32, live: usize, has_quant: bool, p: &Profile) 
                 }
                 Op::SetOrder(o, rng.chance(1, 3))
             }
-            x if x >= 100 && x < 100 + p.gc_weight as u64 => Op::Gc,
+            x if x >= 100 && x < 100 + p.gc_weight as u64 => {
+                if rng.chance(1, 6) {
+                    Op::LevelGc
+                } else {
+                    Op::Gc
+                }
+            }
             x if x >= 100 + p.gc_weight as u64 => {
                 if live > p.max_live || rng.chance(1, 8) {
                     Op::DropMany(rng.next() as u32)
@@ -254,8 +272,9 @@ where
         )
     }
 
+    /// handle index of an operand; `usize::MAX` names the newest handle
     fn idx(&self, i: usize) -> usize {
-        i % self.hs.len()
+        if i == usize::MAX { self.hs.len() - 1 } else { i % self.hs.len() }
     }
 
     fn var_set(&self, mask: u32) -> (AllocResult<K::F>, Vec<u32>) {
@@ -294,7 +313,7 @@ where
         let n = self.n;
         let needs_handle = !matches!(
             op,
-            Op::Const(_) | Op::Var(_) | Op::NotVar(_) | Op::FromTable(_) | Op::Gc | Op::AddVars(_) | Op::AddNamedVars(_) | Op::SetOrder(..) | Op::DropMany(_)
+            Op::Const(_) | Op::Var(_) | Op::NotVar(_) | Op::FromTable(_) | Op::Gc | Op::LevelGc | Op::AddVars(_) | Op::AddNamedVars(_) | Op::AddNamedVarsRejected(_) | Op::SetOrder(..) | Op::DropMany(_)
         );
         if needs_handle && self.hs.is_empty() {
             return;
@@ -512,10 +531,40 @@ where
                 }
             }
             Op::Gc => self.gc(ctx),
-            Op::AddVars(k) | Op::AddNamedVars(k) => {
+            Op::LevelGc => {
+                use oxidd_core::LevelView;
+                self.mref.with_manager_shared(|m| {
+                    for mut level in m.levels() {
+                        level.gc();
+                    }
+                });
+                self.check_all_tables(ctx, "level_gc");
+            }
+            Op::AddVars(k) | Op::AddNamedVars(k) | Op::AddNamedVarsRejected(k) => {
                 let k = *k;
                 let r = if matches!(op, Op::AddVars(_)) {
                     self.mref.with_manager_exclusive(|m| m.add_vars(k))
+                } else if matches!(op, Op::AddNamedVarsRejected(_)) {
+                    let mut names: Vec<String> = (0..k).map(|i| format!("r{}_{}", self.name_counter, i)).collect();
+                    names.push(names[0].clone()); // duplicate within the batch: everything before it stays
+                    names.push(format!("r{}_never", self.name_counter));
+                    self.name_counter += 1;
+                    let r = self.mref.with_manager_exclusive(|m| m.add_named_vars(names.clone()));
+                    match r {
+                        Ok(r) => {
+                            ctx.violation(&format!("{}:add_named_vars:duplicate-accepted", K::NAME), format!("{names:?} -> Ok({r:?})"));
+                            r
+                        }
+                        Err(e) => {
+                            ctx.check(e.present_var == n && e.name == names[0], &format!("{}:add_named_vars:rejected:error-fields", K::NAME), || format!("{names:?}: {e:?}"));
+                            self.mref.with_manager_shared(|m| {
+                                ctx.check(m.num_vars() == n + k && m.num_levels() == n + k, &format!("{}:add_named_vars:rejected:counts", K::NAME), || {
+                                    format!("{names:?}: num_vars {} num_levels {} (had {n}, {k} added before the duplicate)", m.num_vars(), m.num_levels())
+                                });
+                            });
+                            e.added_vars
+                        }
+                    }
                 } else {
                     let names: Vec<String> = (0..k).map(|i| format!("v{}_{}", self.name_counter, i)).collect();
                     self.name_counter += 1;
